@@ -10,6 +10,7 @@ pub mod c14;
 pub mod c18;
 pub mod c20;
 pub mod c21;
+pub mod c22;
 
 fn one(_: Tier) -> usize { 1 }
 
@@ -22,6 +23,7 @@ pub fn all() -> Vec<CheckDef> {
         CheckDef { id: "C18", shards: one, run: c18::run, replay: Some(c18::replay) },
         CheckDef { id: "C20", shards: one, run: c20::run, replay: Some(c20::replay) },
         CheckDef { id: "C21", shards: one, run: c21::run, replay: Some(c21::replay) },
+        CheckDef { id: "C22", shards: one, run: c22::run, replay: Some(c22::replay) },
     ]
 }
 
